@@ -8,7 +8,7 @@ RULES = {
     "G5": order.rule_G5,
     "G6": order.rule_G6,
     "G7": order.rule_G7,
-    "G8": order.rule_G8, "G9": order.rule_G9, "G10": order.rule_G10, "G11": order.rule_G11, "G12": order.rule_G12,
+    "G8": order.rule_G8, "G9": order.rule_G9, "G10": order.rule_G10, "G11": order.rule_G11, "G12": order.rule_G12, "B8": proto.rule_B8,
     "D1": effects.rule_D1,
     "D2": effects.rule_D2,
     "D3": effects.rule_D3,
@@ -71,6 +71,7 @@ CONTROLS = [
     {"name": "F26-offset-bookkeeping", "rule": "F26", "fn": _fires(tables.rule_F26, "f26_bad_offsets")},
     {"name": "A11-side-pattern", "rule": "A11", "fn": _fires(coord.rule_A11, "a11_bad_pattern")},
     {"name": "E6-stale-position", "rule": "E6", "fn": _fires(cursor.rule_E6, "e6_bad_stale_position")},
+    {"name": "B8-buffer-dropped", "rule": "B8", "fn": _fires(proto.rule_B8, "b8_bad_filter_drops", silent_fn="b8_good_extend")},
     {"name": "G12-reversed-zip", "rule": "G12", "fn": _fires(order.rule_G12, "g12_bad_reversed_zip", silent_fn="g12_good_reversed_zip")},
     {"name": "G9-dedup-by-first-arg", "rule": "G9", "fn": _fires(order.rule_G9, "g9_bad_dedup", silent_fn="g9_good_dedup")},
     {"name": "E7-position-reused", "rule": "E7", "fn": _fires(cursor.rule_E7, "e7_bad_position_reused")},
